@@ -293,8 +293,9 @@ def load_known(prop):
 # ------------------------------------------------------------ evidence ----
 
 def write_replay(ctx, name, payload):
-    os.makedirs(os.path.join(VERIF, "replays"), exist_ok=True)
-    path = os.path.join(VERIF, "replays", "%s-%s.json" % (ctx.prop, name))
+    rdir = os.environ.get("VERIF_REPLAYS") or os.path.join(VERIF, "replays")
+    os.makedirs(rdir, exist_ok=True)
+    path = os.path.join(rdir, "%s-%s.json" % (ctx.prop, name))
     with open(path, "w") as fh:
         json.dump(payload, fh, indent=1, sort_keys=True, default=str)
     return path
@@ -327,8 +328,11 @@ def finish(ctx, status=None):
         "wall_s": round(wall, 2),
         "violations": len(ctx.violations),
     }
-    os.makedirs(os.path.join(VERIF, "evidence"), exist_ok=True)
-    with open(os.path.join(VERIF, "evidence", ctx.prop + ".json"), "w") as fh:
+    # evidence is only ever written by runs against /repo itself; a run against a scratch tree (VERIF_REPO,
+    # seeded changes) leaves the committed evidence alone
+    evdir = os.path.join(VERIF, "evidence") if os.path.realpath(REPO) == "/repo" else ctx.scratch
+    os.makedirs(evdir, exist_ok=True)
+    with open(os.path.join(evdir, ctx.prop + ".json"), "w") as fh:
         json.dump(ev, fh, indent=1, sort_keys=True, default=str)
         fh.write("\n")
     for fid, n in sorted(ctx.known_hits.items()):
